@@ -1610,9 +1610,11 @@ theorem C20_node_key_order_irrelevant (d : DefaultsCfg) (n n' : NodeCfg) (hp : N
   have h11 : n'.numPorts = n.numPorts := by rw [hrest]
   have h12 : n'.routerIf = n.routerIf := by rw [hrest]
   have h13 : n'.wap = n.wap := by rw [hrest]
+  have h14 : n'.scan = n.scan := by rw [hrest]
+  have h15 : n'.flags = n.flags := by rw [hrest]
   have houter : applyOuter n' = applyOuter n := by funext sw; simp only [applyOuter, h5]
   unfold buildNode
-  simp only [hk, h1, h2, h3, h4, h5, h6, h7, h8, h9, h10, h11, h12, h13, hnics, hports, hacl, hfw, hfwa, hinst, husers, hfold, houter]
+  simp only [hk, h1, h2, h3, h4, h5, h6, h7, h8, h9, h10, h11, h12, h13, h14, h15, hnics, hports, hacl, hfw, hfwa, hinst, husers, hfold, houter]
 
 /-- `a'` is `a` with the entries of its action map in another order. -/
 structure AgentPerm (a a' : AgentCfg) : Prop where
@@ -2090,32 +2092,20 @@ theorem C20_gen_round4_constants :
     Gen.Config.wirelessRouterPorts = ["WirelessAccessPoint", "RouterInterface"] ∧
     Gen.Config.wirelessRouterSections = ["router_interface", "wireless_access_point", "acl", "routes", "default_route", "operating_state"] ∧
     Gen.Config.nodeScanDefault = defaultScan ∧ Gen.Config.episodeLengthDefault = defaultEpisodeLength ∧
-    Gen.Config.defaultsLanding.map (fun e => (e.1, e.2.1)) = [
-      ("folder_restore_duration", "'folder_restore_duration' in defaults_config"),
-      ("folder_restore_duration", "'folder_restore_duration' in defaults_config"),
-      ("folder_scan_duration", "'folder_scan_duration' in defaults_config"),
-      ("folder_scan_duration", "'folder_scan_duration' in defaults_config"),
-      ("node_scan_duration", "'node_scan_duration' in defaults_config"),
-      ("node_shut_down_duration", "'node_shut_down_duration' in defaults_config"),
-      ("node_shut_down_duration", "get"),
-      ("node_start_up_duration", "'node_start_up_duration' in defaults_config"),
-      ("node_start_up_duration", "get"),
-      ("service_fix_duration", "'service_fix_duration' in defaults_config and 'fixing_duration' not in service_cfg.get('options', {})"),
-      ("service_install_duration", "'service_install_duration' in defaults_config"),
-      ("service_restart_duration", "'service_restart_duration' in defaults_config")] ∧
-    Gen.Config.defaultsLanding.map (fun e => e.2.2) = [
-      "folder.restore_duration = int(defaults_config['folder_restore_duration'])",
-      "new_node.file_system._default_folder_restore_duration = int(defaults_config['folder_restore_duration'])",
-      "folder.scan_duration = int(defaults_config['folder_scan_duration'])",
-      "new_node.file_system._default_folder_scan_duration = int(defaults_config['folder_scan_duration'])",
-      "new_node.config.node_scan_duration = int(defaults_config['node_scan_duration'])",
-      "new_node.config.shut_down_duration = int(defaults_config['node_shut_down_duration'])",
-      "defaults_config.get('node_shut_down_duration', 3)",
-      "new_node.config.start_up_duration = int(defaults_config['node_start_up_duration'])",
-      "defaults_config.get('node_start_up_duration', 3)",
-      "new_service.config.fixing_duration = int(defaults_config['service_fix_duration'])",
-      "new_service.install_duration = int(defaults_config['service_install_duration'])",
-      "new_service.restart_duration = int(defaults_config['service_restart_duration'])"] ∧
+    -- the keys of the defaults section that have ONE statement each and no second source; the five keys that compete with a
+    -- value of the entry (node start-up / shut-down / scan, service fix / restart duration) are TRANSLATED instead and proved to
+    -- resolve as `effective` in Props/C20Resolve.lean (C20_gen_resolve_*), whatever the shape of the statements
+    (Gen.Config.defaultsLanding.filter (fun e => e.1 ∈ ["folder_restore_duration", "folder_scan_duration", "service_install_duration"])) = [
+      ("folder_restore_duration", "'folder_restore_duration' in defaults_config", "folder.restore_duration = int(defaults_config['folder_restore_duration'])"),
+      ("folder_restore_duration", "'folder_restore_duration' in defaults_config",
+        "new_node.file_system._default_folder_restore_duration = int(defaults_config['folder_restore_duration'])"),
+      ("folder_scan_duration", "'folder_scan_duration' in defaults_config", "folder.scan_duration = int(defaults_config['folder_scan_duration'])"),
+      ("folder_scan_duration", "'folder_scan_duration' in defaults_config",
+        "new_node.file_system._default_folder_scan_duration = int(defaults_config['folder_scan_duration'])"),
+      ("service_install_duration", "'service_install_duration' in defaults_config",
+        "new_service.install_duration = int(defaults_config['service_install_duration'])")] ∧
+    (Gen.Config.defaultsLanding.map (·.1)).eraseDups = ["folder_restore_duration", "folder_scan_duration", "node_scan_duration",
+      "node_shut_down_duration", "node_start_up_duration", "service_fix_duration", "service_install_duration", "service_restart_duration"] ∧
     Gen.Config.aclAddressKeys.map (·.1) = ["Router", "Firewall", "Firewall", "Firewall", "Firewall", "Firewall", "Firewall", "WirelessRouter"] ∧
     Gen.Config.aclAddressKeys.all (fun e => e.2 = ("r_cfg.get('src_ip', r_cfg.get('src_ip_address'))",
       "r_cfg.get('dst_ip', r_cfg.get('dst_ip_address'))", "r_cfg.get('src_wildcard_mask')", "r_cfg.get('dst_wildcard_mask')")) = true := by
